@@ -16,10 +16,17 @@ func init() {
 	Register(&Scenario{Prop: "C05", Name: "diff-update", Strict: false, Quick: 30, Thorough: 20, Run: func(rc *RunCtx) *simkit.Violation { return runC05(rc, false) }})
 	Register(&Scenario{Prop: "C05", Name: "diff-update-faulty", Strict: false, Quick: 12, Thorough: 10, Run: func(rc *RunCtx) *simkit.Violation { return runC05(rc, true) }})
 	// bundles with several file lists on either side (the metadata of the replaced bundle has more / fewer index files)
+	Register(&Scenario{Prop: "C05", Name: "known-path-type-switch", Strict: false, Quick: 1, Thorough: 1, Run: func(rc *RunCtx) *simkit.Violation { return runC05switch(rc) }})
 	Register(&Scenario{Prop: "C05", Name: "diff-update-multi-index", Strict: false, Quick: 1, Thorough: 2, Run: func(rc *RunCtx) *simkit.Violation { return runC05big(rc) }})
 }
 
-var c05big bool
+var c05big, c05switch bool
+
+func runC05switch(rc *RunCtx) *simkit.Violation {
+	c05switch = true
+	defer func() { c05switch = false }()
+	return runC05(rc, false)
+}
 
 func runC05big(rc *RunCtx) *simkit.Violation {
 	c05big = true
@@ -42,6 +49,20 @@ func runC05(rc *RunCtx, faulty bool) *simkit.Violation {
 	a := drawTree(t, t.Pick(0, 1, 3, 6, 10), leaf, "a")
 	b := Tree{}
 	relation := t.Choose(5)
+	if c05switch {
+		// known finding: a path changes between file and directory from A to B
+		a = Tree{"keep": []byte("kept"), "p": []byte("file in A"), "q/x": []byte("under a directory in A")}
+		b = Tree{"keep": []byte("kept"), "p/y": []byte("under a directory in B"), "q": []byte("file in B")}
+		switch t.Choose(3) {
+		case 0: // only file -> directory
+			delete(a, "q/x")
+			delete(b, "q")
+		case 1: // only directory -> file
+			delete(a, "p")
+			delete(b, "p/y")
+		}
+		relation = 9
+	}
 	if c05big {
 		// tiny files, many of them: 1..3 file lists per bundle
 		leaf = 64
@@ -57,8 +78,15 @@ func runC05(rc *RunCtx, faulty bool) *simkit.Violation {
 		for p, c := range a {
 			b[p] = c
 		}
+	case 9:
 	case 1: // disjoint
-		b = drawTree(t, t.Pick(0, 1, 4), leaf, "b")
+		for p, c := range drawTree(t, t.Pick(0, 1, 4), leaf, "b") {
+			// a path that is a directory on one side and a file on the other is the known finding
+			// C05/update-failed/path-type-switch (directed scenario below), kept out of the open search
+			if !conflictsWithTree(a, p) {
+				b[p] = c
+			}
+		}
 	default: // mixed: kept, changed, removed, renamed, added
 		for _, p := range a.paths() {
 			if c05big && len(b) >= map[bool]int{true: 900, false: 1 << 30}[len(a) > 1000 && t.Bool(1, 2)] {
@@ -160,6 +188,9 @@ func runC05(rc *RunCtx, faulty bool) *simkit.Violation {
 		if faulty && fired(w) {
 			w.Probe("update-failed-under-faults")
 			return nil
+		}
+		if c05switch {
+			return Viol(prop, "update-failed", "path-type-switch", "", "fault-free Update failed where a path is a file in one bundle and a directory in the other: %v", ut.Err)
 		}
 		return Viol(prop, "update-failed", "Update", "", "fault-free Update failed: %v", ut.Err)
 	}
